@@ -221,7 +221,7 @@ def settle(sim, hosts, limit=14):
     return limit, None
 
 
-def run_crash_history(ctx, base, spec, ops, host, crash_at):
+def run_crash_history(ctx, base, spec, ops, host, crash_at, post_ops=()):
     from vf.harness import daemon, monitors
 
     def play(crash):
@@ -236,6 +236,8 @@ def run_crash_history(ctx, base, spec, ops, host, crash_at):
             res = sim.iterate(host, crash_at=crash)
             ncalls = res["ncalls"]
             after = healthy_view(sim) if crash else None
+            for op in post_ops:  # what the operator does next, whether or not the daemon was killed
+                histories.apply_op(sim, mon, op)
             tainted = set(sim.tainted)
             if crash:
                 # the killed daemon is restarted before any other host acts, so that the comparison with the uninterrupted run is
@@ -251,7 +253,42 @@ def run_crash_history(ctx, base, spec, ops, host, crash_at):
     return play(crash_at)
 
 
+def staged_corpus(ctx, base):
+    """a local transfer (hard link / internal copy: staged in a temporary directory beside the destination) killed at every call, after which
+    the operator asks for a scan of the acquisition on the destination: the restarted daemons must end where the uninterrupted run ends"""
+    for stype, tools in (("A", "both"), ("F", "none")):
+        spec = {"groups": [{"name": "g1"}, {"name": "g2"}],
+                "nodes": [{"name": "n1", "group": "g1", "stype": stype, "host": "h1", "active": True, "username": "u", "address": "addr"},
+                          {"name": "n2", "group": "g2", "stype": "A", "host": "h1", "active": True, "username": "u", "address": "addr"}],
+                "acqs": ["acq1"], "files": [{"acq": "acq1", "name": "data.bin", "size": 150}], "copies": [{"file": 0, "node": "n1", "has": "Y", "wants": "Y"}],
+                "reqs": [{"file": 0, "from": "n1", "to": "g2", "state": "pending"}], "rules": [], "unregistered": [], "ireqs": []}
+        ops = [("tools", tools, {})]
+        post = [("cli", "node scan", ["n2", "acq1", "--register-new"])]
+        a = run_crash_history(ctx, base, spec, ops, "h1", None, post)
+        if a is None:
+            ctx.broke("harness", "staged corpus", "the uninterrupted staged transfer did not run")
+            continue
+        for k in range(1, a["ncalls"] + 1):
+            b = run_crash_history(ctx, base, spec, ops, "h1", k, post)
+            ctx.count("crash-history")
+            rp = {"family": "crash-history", "spec": spec, "ops": [list(o) for o in ops], "host": "h1", "crash_at": k, "post_ops": [list(o) for o in post]}
+            if b is None:
+                continue
+            if b["err"]:
+                ctx.fail("C09:daemon-died", f"after a kill at call {k} a restarted daemon died: {b['err'][:300]}", rp)
+                continue
+            extra = sorted(set(b["end"]) - set(a["end"]))
+            if extra:
+                ctx.fail("C09:diverged-after-crash", f"killed at call {k} on h1: after the restart the index holds copies no uninterrupted run records: {[(x, b['end'][x]) for x in extra]}", rp)
+            for key in set(a["end"]) & set(b["end"]):
+                ha = a["end"][key][0] == "Y" and a["end"][key][2] is True
+                hb = b["end"][key][0] == "Y" and b["end"][key][2] is True
+                if ha != hb:
+                    ctx.fail("C09:diverged-after-crash", f"killed at call {k} on h1: after convergence copy {key} is {b['end'][key]}, the uninterrupted run leaves {a['end'][key]}", rp)
+
+
 def explore_histories(ctx, base, n):
+    staged_corpus(ctx, base)
     done = 0
     for _ in range(n * 3):
         if done >= n:
